@@ -89,6 +89,9 @@ func newAlgoSUT(r *rng, algo, wrap string) *algoSUT {
 	case "gradient":
 		c.Ceil = []int{50, 200, 1000}[r.intn(3)]
 		c.Floor = r.between(1, 6)
+		if r.chance(1, 3) {
+			c.Floor = r.between(7, 40) // a minimum well above the queue allowance: a probe restarts from the minimum
+		}
 		c.Queue = r.between(1, 8)
 		if c.Queue > c.Ceil {
 			c.Queue = c.Ceil
@@ -589,6 +592,12 @@ func TestLimitTwin(t *testing.T) {
 			hl = r.between(1, 12)
 		}
 		lowProbe := algo == "vegas" && !quiet && r.chance(1, 3)
+		// Gradient: the history ends with a forced baseline probe followed by one to three healthy saturated samples, so
+		// the pair is judged on the state a probe leaves behind (the estimate it restarts from)
+		gradProbe := -1
+		if algo == "gradient" && !quiet && ref.cfg.ProbeMax > 0 && r.chance(1, 2) {
+			gradProbe = hl - 1 - []int{1, 2, 2, 3, 3, 4}[r.intn(6)]
+		}
 		var endLast, endMoved, endMax int64 // completion time of the latest sample / of the latest one that moved the estimate
 		for i := 0; i < hl; i++ {
 			if b, set := ref.baseline(); set {
@@ -605,6 +614,9 @@ func TestLimitTwin(t *testing.T) {
 				// the history ends with a baseline probe (forced below, after the previous sample) whose RTT is lower than the
 				// baseline it replaces: the pair that follows is judged against the new baseline
 				x.rtt, x.inflight, x.drop = base/2, est, false
+			}
+			if gradProbe >= 0 && i > gradProbe {
+				x.rtt, x.inflight, x.drop = base, est, false
 			}
 			if k%2 == 1 {
 				// half of the prepared states are built from samples that carry their start time (completions in order)
@@ -629,6 +641,9 @@ func TestLimitTwin(t *testing.T) {
 				jit = append(jit, j)
 			}
 			if ref.grad != nil {
+				if i == gradProbe-1 {
+					ref.grad.VerifSetResetCounter(1) // the next sample is a probe (in the twins too: the countdown is replayed)
+				}
 				cnt = append(cnt, ref.grad.VerifResetCounter())
 			}
 		}
@@ -665,7 +680,7 @@ func TestLimitTwin(t *testing.T) {
 		w.write(J{"ev": "Reset", "trace": k, "cfg": ref.cfg, "obs": J{"est": ref.cfg.Initial, "listeners": 0}})
 		// mostly saturated and drop free: an app-limited or dropped final sample gives the same estimate whatever its RTT
 		last := smp{0, []int{est, est, est + 5, est + 1, est / 2, 0}[r.intn(6)], r.chance(1, 10), 0}
-		if quiet {
+		if quiet || gradProbe >= 0 {
 			last.inflight, last.drop = est, false
 		}
 		starts := []int64{0}
